@@ -54,6 +54,12 @@
 //	D12 over ws-rtsp the path of a DESCRIBE is the path of the WebSocket URL
 //	   (the endpoint is /streams/<path>), not the one in the request line; once an
 //	   ANNOUNCE succeeded on the connection the outcome of a DESCRIBE is left open.
+//	D13 the WSP control channel is a play-only proxy (DESCRIBE / SETUP over the
+//	   WebSocket / PLAY / PAUSE): ANNOUNCE and RECORD must be refused there (any
+//	   code), UDP and multicast transports are left to the server.
+//	D14 after a PAUSE answered 2xx the model is in Ready (§10.6), the stream
+//	   attachment may be kept (PAUSE keeps resources), and a SETUP may still be
+//	   answered 455 by a server that treats the paused session as playing.
 package c12
 
 import "fmt"
@@ -105,6 +111,8 @@ type model struct {
 	Setup     map[string]string // media kind → transport kind of accepted SETUPs
 	Released  bool              // after a successful TEARDOWN
 	WSPath    string            // != "": ws-rtsp connection to this path (D12)
+	WSP       bool              // WSP control channel: a play-only proxy endpoint (D13)
+	Paused    bool              // a PAUSE was answered 2xx and no PLAY since (D14)
 	Announced string            // path of the last successful ANNOUNCE on this connection
 }
 
@@ -185,6 +193,9 @@ func (m *model) setup(e *env, s *step) expectation {
 	if m.St == stPlaying || m.St == stRecording {
 		return expectation{Kind: expAny, Or455: true, Why: "SETUP while " + m.St.String() + " (D7)"}
 	}
+	if m.Paused {
+		return expectation{Kind: expAny, Or455: true, Why: "SETUP in a paused session (D14)", apply: took}
+	}
 	if m.Mode == "" {
 		return expectation{Kind: expRefuse, Why: "SETUP without a description (D8)"}
 	}
@@ -212,6 +223,9 @@ func (m *model) setup(e *env, s *step) expectation {
 	if s.Path != m.Path {
 		return expectation{Kind: expAny, Why: "SETUP with a track URL under another path (D9)", apply: took}
 	}
+	if m.WSP && s.Trans != "tcp" {
+		return expectation{Kind: expAny, Why: s.Trans + " transport through the WSP proxy (D13)", apply: took}
+	}
 	if m.Mode == "record" {
 		if s.Trans != "tcp" {
 			return expectation{Kind: expAny, Why: "record over " + s.Trans + " (D9)", apply: took}
@@ -234,7 +248,9 @@ func (m *model) expect(e *env, s *step) expectation {
 		return expectation{Kind: expOK, Why: "OPTIONS is legal in every state (D1)"}
 	case "TEARDOWN":
 		return expectation{Kind: expOK, Why: "TEARDOWN is legal in every state (D2)", apply: func(m *model) {
+			wsp := m.WSP
 			*m = *newModel(m.WSPath)
+			m.WSP = wsp
 			m.Released = true
 		}}
 	case "DESCRIBE":
@@ -245,6 +261,9 @@ func (m *model) expect(e *env, s *step) expectation {
 		}
 		return x
 	case "ANNOUNCE":
+		if m.WSP {
+			return expectation{Kind: expRefuse, Why: "ANNOUNCE on the play-only WSP endpoint (D13)"}
+		}
 		x := m.announce(e, s)
 		if m.St != stInit {
 			x.Or455 = true
@@ -259,15 +278,18 @@ func (m *model) expect(e *env, s *step) expectation {
 			return expectation{Kind: expNot455, Why: "PLAY while playing is legal (A.2) (D3)"}
 		case m.St == stReady && m.Mode == "play":
 			if s.Path != m.Path {
-				return expectation{Kind: expAny, Why: "PLAY with a URL under another path than the session's", apply: func(m *model) { m.St = stPlaying }}
+				return expectation{Kind: expAny, Why: "PLAY with a URL under another path than the session's", apply: func(m *model) { m.St, m.Paused = stPlaying, false }}
 			}
-			return expectation{Kind: expOK, Why: "PLAY after DESCRIBE and SETUP", apply: func(m *model) { m.St = stPlaying }}
+			return expectation{Kind: expOK, Why: "PLAY after DESCRIBE and SETUP", apply: func(m *model) { m.St, m.Paused = stPlaying, false }}
 		case s.Path != m.Path && m.Path != "":
 			return expectation{Kind: expRefuse, Why: "PLAY in state " + m.String() + " with a foreign URL"}
 		default:
 			return expectation{Kind: expIllegal, Why: "PLAY in state " + m.String() + " (D3/D4)"}
 		}
 	case "RECORD":
+		if m.WSP {
+			return expectation{Kind: expRefuse, Why: "RECORD on the play-only WSP endpoint (D13)"}
+		}
 		switch {
 		case m.St == stRecording:
 			return expectation{Kind: expNot455, Why: "RECORD while recording is legal (A.2) (D3)"}
@@ -286,7 +308,7 @@ func (m *model) expect(e *env, s *step) expectation {
 		}
 	case "PAUSE":
 		if m.St == stPlaying || m.St == stRecording {
-			return expectation{Kind: expAny, Why: "PAUSE (D5)", apply: func(m *model) { m.St = stReady }}
+			return expectation{Kind: expAny, Why: "PAUSE (D5)", apply: func(m *model) { m.St, m.Paused = stReady, true }}
 		}
 		return expectation{Kind: expAny, Why: "PAUSE outside playing/recording (D5)"}
 	default: // GET_PARAMETER, SET_PARAMETER, unknown methods
